@@ -21,7 +21,7 @@ FORMAT_TWIN = True          # ambient monitor: every System matrix is also reque
 META = {
     "level_text": "Exploration: generated systems covering every joint type x subsystem pairing are assembled with the real System and every level of the constraint hierarchy is decided at on- and off-manifold states by time-derivative, transpose-Jacobian and finite-difference oracles on the system-level methods. Held on the systems and states generated.",
     "level_note": "float64 finite-difference oracles with measured uncertainty; consistent initial conditions disabled during assembly (C16 covers them).",
-    "technique": "runtime return-value monitors on System methods with T/D/W finite-difference oracles",
+    "technique": "runtime return-value monitors on System methods with T/D/W finite-difference oracles + ambient format-twin monitor (every System matrix also requested as coo/csr/csc/array)",
 }
 CASE_TIMEOUT = 180
 
